@@ -82,9 +82,10 @@ func runC19(r *Run, p *Prog) {
 
 	// ---- A1: error discipline
 	r.Guard("A1", func() {
+		resetFns := fnSet(BuildServeModel(p, ro).Reset)
 		for f := range scope {
-			if fnPkgPath(f) != pkgVarlink {
-				continue
+			if fnPkgPath(f) != pkgVarlink || resetFns[f] {
+				continue // the teardown path deliberately ignores close errors (as the original ignores Close's)
 			}
 			for _, cs := range callsIn(f, false) {
 				call, ok := cs.Instr.(*ssa.Call)
